@@ -987,7 +987,9 @@ def execute_all(pool, rng: random.Random, tier: str, n: int):
     results = pool.run(jobs)
     from mdsim.main import flatten
 
-    pairs += flatten(shaped, results)
+    # report in configuration order, whatever the number of interpreter slots the scenarios were spread over
+    order = {id(x): i for i, x in enumerate(specs)}
+    pairs += sorted(flatten(shaped, results), key=lambda sr: order.get(id(sr[0]), len(order)))
     cov = {
         "configurations": layouts,
         "exhaustive_per_configuration": "crash points and torn writes: all; truncation/flip offsets: " + ("every byte" if tier == "thorough" else "dense stride + member/header boundaries"),
